@@ -60,6 +60,7 @@ struct Env {
   std::vector<CrossSection> X;
   size_t capM = 12, capX = 8;
   ExecutionContext* ctx = nullptr;  // used by the *ctx ops
+  bool eagerTemps = false;          // "nest" evaluates its temporaries one by one (eager reference build)
   std::vector<Produced> produced;   // filled by exec()
   std::string note;                 // e.g. "skipped"
   // Called just before an element is removed/overwritten so models can follow.
@@ -262,7 +263,7 @@ inline bool exec(Env& e, const Op& op) {
       e.pushM(Manifold::Revolve(e.x(A(0)).Translate(vec2(U(A(3), 0, 1.5), 0)).ToPolygons(), 3 + (int)((A(1) % 40 + 40) % 40),
                                 A(2) % 3 == 0 ? 360.0 : U(A(2), 30, 360)));
   } else if (n == "cellrow") {
-    int M = 1 + (int)(((A(0) % 6000) + 6000) % 6000), K = 1 + (int)(((A(1) % 32) + 32) % 32);
+    int M = 1 + (int)(((A(0) % 60000) + 60000) % 60000), K = 1 + (int)(((A(1) % 32) + 32) % 32);
     e.pushM(Manifold(cell_mesh(M, K, (int)(A(2) % 3))));
   } else if (n == "hullpts") {
     Rng r((uint64_t)A(1) * 31 + 7);
@@ -332,6 +333,40 @@ inline bool exec(Env& e, const Op& op) {
         default: t ^= e.m(A(2)); break;
       }
       e.pushM(t);
+    }
+  } else if (n == "nest") {
+    // One expression built from unnamed temporaries: a op ((b op ((c op d).T2)).T1). Temporaries that
+    // nobody else owns are what the evaluator may collapse into their parent; a pool of named objects
+    // never produces them. With eagerTemps every temporary is named and forced instead.
+    if (needM()) {
+      const OpType o1 = optype(A(0)), o2 = optype(A(1)), o3 = optype(A(2));
+      const Manifold &a = e.m(A(3)), &b = e.m(A(4)), &c = e.m(A(5)), &d = e.m(A(6));
+      auto T1 = [&](const Manifold& m) { return m.Rotate(U(A(7), 0, 360), U(A(8), 0, 360), 0).Translate(vec3(U(A(9), -.4, .4), 0, U(A(10), -.4, .4))); };
+      auto T2 = [&](const Manifold& m) { return m.Scale(vec3(U(A(11), .6, 1.4), 1, U(A(12), .6, 1.4))).Rotate(0, U(A(13), 0, 360), U(A(14), 0, 360)); };
+      if (e.eagerTemps) {
+        Manifold t3 = c.Boolean(d, o3);
+        (void)t3.Status();
+        Manifold t3t = T2(t3);
+        (void)t3t.Status();
+        Manifold t2 = b.Boolean(t3t, o2);
+        (void)t2.Status();
+        Manifold t2t = T1(t2);
+        (void)t2t.Status();
+        Manifold t1 = a.Boolean(t2t, o1);
+        (void)t1.Status();
+        e.pushM(t1);
+      } else {
+        e.pushM(a.Boolean(T1(b.Boolean(T2(c.Boolean(d, o3)), o2)), o1));
+      }
+    }
+  } else if (n == "speck") {
+    // the operand plus a few specks far smaller than any tolerance used by simplify/settol
+    if (needM()) {
+      std::vector<Manifold> v{e.m(A(0))};
+      int k = 1 + (int)(((A(1) % 3) + 3) % 3);
+      for (int i = 0; i < k; i++)
+        v.push_back(Manifold::Tetrahedron().Scale(vec3(U(A(2) + i, 2e-4, 2e-3))).Translate(vec3(3.0 + i, U(A(3), -1, 1), 0.5 * i)));
+      e.pushM(Manifold::BatchBoolean(v, OpType::Add));
     }
   } else if (n == "compose") {
     if (needM()) {
